@@ -112,6 +112,19 @@ def reference_draw(rec, data, block, kind, knobs, others, start, tape, n_steps):
         for _ in range(n_steps):
             w = np.sqrt(0.7) * np.random.randn(2, 1).ravel()
         return w
+    if kind == "UGLA" and block == "x" and shape == "x_d_lmrf":
+        # unadjusted Laplace approximation: at every step the LMRF prior (scale 1/d) is replaced by the Gaussian with
+        # square-root precision sqrt(d) * W(x)^(1/2) D, W = diag(1/sqrt((Dx)^2 + beta)), linearised at the CURRENT x
+        maxit, tol, beta = knobs.get("maxit", 50), knobs.get("tol", 1e-4), knobs.get("beta", 1e-5)
+        D, c, d = D_zero(n), 1 / np.sqrt(0.3), g("d")
+        np.random.set_state(tape)
+        x = np.array(start, float)
+        for _ in range(n_steps):
+            w = 1 / np.sqrt((D @ x) ** 2 + beta)
+            M = np.vstack([c * A, np.sqrt(d) * (np.sqrt(w)[:, None] * D)])
+            b = np.hstack([c * y, np.zeros(n + 1)])
+            x = cgls(M, b + np.random.randn(len(b)), x, maxit, tol)
+        return x
     if kind == "LinearRTO" and block == "x":
         maxit, tol = knobs.get("maxit", 10), knobs.get("tol", 1e-6)
         I = np.eye(n)
